@@ -189,6 +189,12 @@ def random_program(rng, idx=0, max_series=6, allow3=True):
                     vals.append(e)
                 else:
                     vals.append("if %s:\n            %s" % (c, e))
+        # constructs without meaning that the compiler must tolerate: a bare `zero` line, an assignment to
+        # another name than `start`
+        if rng.random() < 0.12 and not (st == "1" and marker is None and len(vals) == 1):
+            vals.insert(rng.randrange(len(vals) + 1), "zero")
+        if rng.random() < 0.12:
+            body.append("note = %d" % rng.randint(0, 3))
         if stress and s == names[1]:
             vals = [_q(names[0]) if rng.random() < 0.6 else "%s + %s" % (_q(names[0]), g.atom(inputs, adj_ok=False))] + (vals[:1] if st != "1" else [])
             marker = None
@@ -205,9 +211,18 @@ def random_program(rng, idx=0, max_series=6, allow3=True):
         src.append("")
     for fs, herm in products:
         src.append("    with %s:" % _q(" @ ".join(fs)))
+        if rng.random() < 0.2:
+            src.append("        " + _q("the product of %d factors" % len(fs)))
         src.append("        " + ("hermitian" if herm else "pass"))
         src.append("")
-    src.append("    return " + ", ".join(_q(o) for o in outs))
+    ret = rng.random()
+    if ret < 0.08:
+        outs = []
+        src.append("    return")  # bare return: no outputs
+    elif ret < 0.14:
+        outs = []  # no return statement at all
+    else:
+        src.append("    return " + ", ".join(_q(o) for o in outs))
     source = "\n".join(src) + "\n"
     js = TA.translate_source(source)[0]
     return dict(name=fname, source=source, json=js, inputs=inputs, series=order,
